@@ -504,6 +504,63 @@ func summariseReaderParser(c *core.Ctx, fn *ssa.Function, key string) parserSumm
 			bad = fmt.Sprintf("the map store is not dominated by a successful-completion check (`Error() != nil` false) of read %d: a parameter that is not completely present in the input can be reported", i+1)
 		}
 	}
+	// nothing reported missing either: once a parameter's header has been read without an error, the loop is left before
+	// the entry is stored only through the error handling (the true side of an `Error() != nil` test) or by answering an
+	// error - a way out on any other condition (nothing left after the header: a zero-length parameter at the very end)
+	// drops a parameter that is completely present
+	if bad == "" && len(reads) >= 1 {
+		pv := prover.New(fn)
+		var loop *prover.Loop
+		for _, l := range pv.Loops() {
+			if l.Blocks[update.Block()] && (loop == nil || len(l.Blocks) < len(loop.Blocks)) {
+				loop = l
+			}
+		}
+		hdr := reads[0]
+		answersError := func(blk *ssa.BasicBlock) bool {
+			for i := 0; i < 4 && blk != nil; i++ {
+				if ret, ok := blk.Instrs[len(blk.Instrs)-1].(*ssa.Return); ok {
+					last := ret.Results[len(ret.Results)-1]
+					if isErrorType(last.Type()) {
+						return !paths.IsNilConst(last)
+					}
+					return paths.IsNilConst(ret.Results[0]) // ReadTLVs1: nil means failure
+				}
+				if len(blk.Succs) != 1 {
+					return false
+				}
+				blk = blk.Succs[0]
+			}
+			return false
+		}
+		if loop != nil {
+			for x := range loop.Blocks {
+				for _, sx := range x.Succs {
+					if loop.Blocks[sx] {
+						continue
+					}
+					afterHdr := x == hdr.Block() || (hdr.Block().Dominates(x) && x != hdr.Block())
+					if !afterHdr || update.Block().Dominates(x) {
+						continue
+					}
+					underErr := false
+					for _, ifi := range errChecks {
+						t := ifi.Block().Succs[0]
+						if len(t.Preds) == 1 && (t == x || t.Dominates(x)) {
+							underErr = true
+						}
+						// the way out is the error edge itself
+						if ifi.Block() == x && sx == t {
+							underErr = true
+						}
+					}
+					if !underErr && !answersError(sx) {
+						bad = "the loop is left at " + c.Prog.Pos(x.Instrs[len(x.Instrs)-1].Pos()) + " after a parameter's header was read, on a condition other than a read error, before the entry is stored: a parameter that is completely present (a zero-length one at the very end) is dropped"
+					}
+				}
+			}
+		}
+	}
 	c.Decide(bad == "", "C16-PARSE", key+"#store", pos, "entry stored only after both reads completed", bad)
 	return sum
 }
